@@ -9,7 +9,7 @@ from provenance import base_tag, elem_index
 from asmflow import tag_name
 from irtext import IRModule
 
-UNDECIDED = 'that P/Q bytes are the right values (Horner order, lane arithmetic) and completeness of corruption detection'
+UNDECIDED = 'the portable C kernels\' parity arithmetic beyond their SWAR constants; that the buffers do not alias (contract)'
 STORE_IDX = {'raid_xor_gen': {(-8, 8)}, 'raid_pq_gen': {(-16, 8), (-8, 8)}, 'raid_xor_check': set(), 'raid_pq_check': set()}
 
 
@@ -119,6 +119,8 @@ def main(tier):
     import bounds
     bounds.check_src_cover(rep, 22)
     bounds.check(rep, {'raid_pq_gen', 'raid_pq_check'}, 'RAID', 5)
+    import horner
+    horner.check(rep, 68)
     return rep.finish()
 
 
